@@ -54,20 +54,20 @@ PLAN = {
         item("h_stream", "ans_sizes", 1_200_000, 32_000_000, max_len=(1024, 8192)),
         item("h_stream", "range_msg", 1_200_000, 32_000_000, param=18, max_len=(1024, 16384)),
         item("h_symbol", "c16_bits", 800_000, 24_000_000, param=18, max_len=(1024, 8192)),
-        item("h_model", "categorical", 200_000, 8_000_000, param=18, max_len=(2048, 16384), fuzz_runs=800_000),
-        item("h_model", "leaky", 24_000, 1_000_000, param=18, max_len=(2048, 4096), fuzz_runs=160_000),
+        item("h_model", "categorical", 200_000, 4_000_000, param=18, max_len=(2048, 16384), fuzz_runs=800_000),
+        item("h_model", "leaky", 24_000, 500_000, param=18, max_len=(2048, 4096), fuzz_runs=160_000),
     ],
     "C03": [
-        item("h_model", "categorical", 400_000, 16_000_000, param=3, max_len=(2048, 16384), fuzz_runs=800_000),
-        item("h_model", "leaky", 48_000, 2_000_000, param=3, max_len=(2048, 4096), fuzz_runs=160_000),
+        item("h_model", "categorical", 400_000, 8_000_000, param=3, max_len=(2048, 16384), fuzz_runs=800_000),
+        item("h_model", "leaky", 48_000, 1_000_000, param=3, max_len=(2048, 4096), fuzz_runs=160_000),
     ],
     "C05": [
-        item("h_model", "categorical", 300_000, 12_000_000, param=5, max_len=(2048, 16384), fuzz_runs=800_000),
-        item("h_model", "leaky", 32_000, 1_500_000, param=5, max_len=(2048, 4096), fuzz_runs=160_000),
+        item("h_model", "categorical", 300_000, 4_000_000, param=5, max_len=(2048, 16384), fuzz_runs=800_000),
+        item("h_model", "leaky", 32_000, 750_000, param=5, max_len=(2048, 4096), fuzz_runs=160_000),
     ],
     "C19": [
-        item("h_model", "categorical", 600_000, 24_000_000, param=19, max_len=(2048, 16384), fuzz_runs=800_000),
-        item("h_model", "leaky", 48_000, 2_000_000, param=19, max_len=(2048, 4096), fuzz_runs=160_000),
+        item("h_model", "categorical", 600_000, 12_000_000, param=19, max_len=(2048, 16384), fuzz_runs=800_000),
+        item("h_model", "leaky", 48_000, 1_000_000, param=19, max_len=(2048, 4096), fuzz_runs=160_000),
     ],
     "C10": [
         item("h_model", "c10_decode", 6_400_000, 48_000_000, max_len=(2048, 16384)),
